@@ -10,6 +10,7 @@ Line-protocol driver for C04. Requests (all ints after the op):
 * `implicify <wire>` / `explicify <wire>` → `ok <wire of the result> H <total hydrogens|-1>` | `lib:ValenceError` | `E:KeyError`
 * `stdrule na {pn ch ir(-1|0|1)}*na nb {pn pm bo}*nb ny {pn}*ny nm {len {pn n}*len}*nm <wire>` → one rule of `__standardize` over the
                                         recorded mappings (rewrite + recount of `hs`): `ok <wire of the result>` | `E:KeyError`
+* `stdchain K {rule as in stdrule, without the molecule}*K <wire>` → the rule part of one `standardize()` call (`stdRules`): same answers
 * `mol <wire molecule>`              → `calc h..|chk (0,1,-1)..|cv ids..|fixcv ids.. ; marks after fix_structure..|q charge|rad 0/1|brutto sym n ..|mass pico`
 -/
 open ChythonModel.Model ChythonModel.Model.Valence ChythonModel.Py ChythonModel.Gen
@@ -102,25 +103,42 @@ def parseMaps : Nat → List Int → Option (List (List (Nat × Nat)) × List In
     let (tl, r') ← parseMaps k r
     some (g.map (fun x => ((x.getD 0 0).toNat, (x.getD 1 0).toNat)) :: tl, r')
 
+def parseRuleFix (xs : List Int) : Option ((RuleFix × List (List (Nat × Nat))) × List Int) := do
+  let (af, r1) ← counted? 3 xs
+  let (bf, r2) ← counted? 3 r1
+  let (ay, r3) ← counted? 1 r2
+  let (maps, r4) ← match r3 with
+    | k :: rest => parseMaps k.toNat rest
+    | [] => none
+  let fx : RuleFix :=
+    { atomFix := af.map fun x => ((x.getD 0 0).toNat, x.getD 1 0, tri (x.getD 2 (-1))),
+      bondsFix := bf.map fun x => ((x.getD 0 0).toNat, (x.getD 1 0).toNat, (x.getD 2 0).toNat),
+      anyAtoms := ay.map fun x => (x.getD 0 0).toNat }
+  some ((fx, maps), r4)
+
+def parseRuleFixes : Nat → List Int → Option (List (RuleFix × List (List (Nat × Nat))) × List Int)
+  | 0, rest => some ([], rest)
+  | k+1, rest => do
+    let (r, rest1) ← parseRuleFix rest
+    let (tl, rest2) ← parseRuleFixes k rest1
+    some (r :: tl, rest2)
+
 def handleStdRule (xs : List Int) : String :=
-  let parsed : Option (RuleFix × List (List (Nat × Nat)) × Mol) := do
-    let (af, r1) ← counted? 3 xs
-    let (bf, r2) ← counted? 3 r1
-    let (ay, r3) ← counted? 1 r2
-    let (maps, r4) ← match r3 with
-      | k :: rest => parseMaps k.toNat rest
-      | [] => none
-    let (m, _) ← Mol.parse r4
-    let fx : RuleFix :=
-      { atomFix := af.map fun x => ((x.getD 0 0).toNat, x.getD 1 0, tri (x.getD 2 (-1))),
-        bondsFix := bf.map fun x => ((x.getD 0 0).toNat, (x.getD 1 0).toNat, (x.getD 2 0).toNat),
-        anyAtoms := ay.map fun x => (x.getD 0 0).toNat }
-    some (fx, maps, m)
-  match parsed with
+  match (parseRuleFix xs).bind fun (r, rest) => (Mol.parse rest).map fun (m, _) => (r, m) with
   | none => "bad-request"
-  | some (fx, maps, m) => match stdRule fx maps m with
+  | some ((fx, maps), m) => match stdRule fx maps m with
     | none => "E:KeyError"
     | some m' => "ok " ++ m'.render
+
+def handleStdChain (xs : List Int) : String :=
+  match xs with
+  | k :: rest =>
+    match (parseRuleFixes k.toNat rest).bind fun (rs, rest') => (Mol.parse rest').map fun (m, _) => (rs, m) with
+    | none => "bad-request"
+    | some (rs, m) => match stdRules rs m with
+      | none => "E:KeyError"
+      | some m' => "ok " ++ m'.render
+  | [] => "bad-request"
 
 def handle (line : String) : String :=
   match words line with
@@ -149,6 +167,10 @@ def handle (line : String) : String :=
   | "stdrule" :: ws =>
     match parseInts? ws with
     | some xs => handleStdRule xs
+    | none => "bad-request"
+  | "stdchain" :: ws =>
+    match parseInts? ws with
+    | some xs => handleStdChain xs
     | none => "bad-request"
   | "implicify" :: ws =>
     match (parseInts? ws).bind Mol.parse with
